@@ -21,15 +21,21 @@ def _sim():
 class NetConfig:
     """Per-run network behaviour, all driven by its own PRNG (part of the schedule stream)."""
 
-    def __init__(self, rng, chunk='whole', latency='const', base_latency=0.001, short_send=0.0):
+    def __init__(self, rng, chunk='whole', latency='const', base_latency=0.001, short_send=0.0,
+                 rst=False):
         self.rng = rng
         self.short_send = short_send    # probability that socket.send() accepts only a prefix
+        # abortive close: a connection closed (by close() or by the OS at process exit) while
+        # bytes it was sent are still unread is RESET, as TCP does: the peer's recv raises
+        # ConnectionResetError (after the bytes it already has) instead of reading end-of-stream
+        self.rst = rst
         self.chunk = chunk          # 'whole' | 'few' | 'bytes' | 'crlf'
         self.latency = latency      # 'const' | 'uniform' | 'heavy'
         self.base_latency = base_latency
 
     def describe(self):
-        return {'chunk': self.chunk, 'latency': self.latency, 'base_latency': self.base_latency}
+        return {'chunk': self.chunk, 'latency': self.latency, 'base_latency': self.base_latency,
+                'rst': self.rst}
 
     def cut(self, data):
         n = len(data)
@@ -161,6 +167,8 @@ class SimSocket:
         self._timeout = None
         self._rx = None
         self._tx = None
+        self._io_refs = 0        # file objects made by makefile() that are still open
+        self._user_closed = False
         s = current_sim()
         self.name = s.new_obj_name('Socket') if s else 'Socket?'
         # the simulated OS process that owns this descriptor (closed by the OS when it exits)
@@ -357,19 +365,67 @@ class SimSocket:
             raise SimSpin(f'{pipe.eof_reads} consecutive end-of-stream reads on {pipe.label}')
         return b''
 
+    def recv_into(self, buffer, nbytes=0, flags=0):
+        data = self.recv(nbytes or len(buffer), flags)
+        memoryview(buffer).cast('B')[:len(data)] = data
+        return len(data)
+
+    def makefile(self, mode='r', buffering=None, *, encoding=None, errors=None, newline=None):
+        """socket.makefile as in CPython's Lib/socket.py: the real SocketIO / Buffered* /
+        TextIOWrapper classes on top of this socket's recv_into() and send()"""
+        import io
+        if not set(mode) <= {'r', 'w', 'b'}:
+            raise ValueError('invalid mode %r (only r, w, b allowed)' % (mode,))
+        writing = 'w' in mode
+        reading = 'r' in mode or not writing
+        binary = 'b' in mode
+        rawmode = ('r' if reading else '') + ('w' if writing else '')
+        raw = _real_socket.SocketIO(self, rawmode)
+        self._io_refs += 1
+        if buffering is None:
+            buffering = -1
+        if buffering < 0:
+            buffering = io.DEFAULT_BUFFER_SIZE
+        if buffering == 0:
+            if not binary:
+                raise ValueError('unbuffered streams must be binary')
+            return raw
+        if reading and writing:
+            buffer = io.BufferedRWPair(raw, raw, buffering)
+        elif reading:
+            buffer = io.BufferedReader(raw, buffering)
+        else:
+            buffer = io.BufferedWriter(raw, buffering)
+        if binary:
+            return buffer
+        text = io.TextIOWrapper(buffer, encoding, errors, newline)
+        text.mode = mode
+        return text
+
+    def _decref_socketios(self):
+        if self._io_refs > 0:
+            self._io_refs -= 1
+        if self._user_closed:
+            self.close()
+
     def shutdown(self, how):
         s = _sim()
         s.yield_('sock.shutdown', self.name)
         if self._state == 'connected' and how in (_real_socket.SHUT_WR, _real_socket.SHUT_RDWR):
             self._half_close(s)
 
-    def _half_close(self, s):
+    def _half_close(self, s, full=False):
         pipe = self._tx
         if not pipe.writer_closed:
             pipe.writer_closed = True
             when = max(pipe.last_t, s.now + network().cfg.delay())
             pipe.last_t = when
-            s.schedule_at(when, _Eof(pipe), 'eof')
+            if full and network().cfg.rst and self._rx.buf:
+                # closed with unread data in the receive buffer: TCP answers with RST, not FIN
+                s.count_fault('net.rst')
+                s.schedule_at(when, _Reset(pipe), 'rst')
+            else:
+                s.schedule_at(when, _Eof(pipe), 'eof')
 
     def close(self):
         s = current_sim()
@@ -377,6 +433,10 @@ class SimSocket:
             self._state = 'closed'
             return
         if self._state == 'closed':
+            return
+        self._user_closed = True
+        if self._io_refs > 0:
+            # as in CPython: the descriptor stays open until the last makefile() object is closed
             return
         s.yield_('sock.close', self.name)
         st = self._state
@@ -392,7 +452,7 @@ class SimSocket:
                 conn.c2s.reader_closed = True
             self._queue = []
         elif st == 'connected':
-            self._half_close(s)
+            self._half_close(s, full=True)
             self._rx.reader_closed = True
 
     def _os_close(self, s):
@@ -400,7 +460,7 @@ class SimSocket:
         called by the controller)"""
         if self._state == 'connected':
             self._state = 'closed'
-            self._half_close(s)
+            self._half_close(s, full=True)
             self._rx.reader_closed = True
         elif self._state == 'listening':
             self._state = 'closed'
@@ -415,9 +475,6 @@ class SimSocket:
 
     def detach(self):
         return -1
-
-    def makefile(self, *a, **k):
-        raise HarnessError('SimSocket.makefile is not modelled')
 
 
 class _Deliver:
@@ -441,6 +498,16 @@ class _Eof:
 
     def __call__(self):
         self.pipe.eof = True
+
+
+class _Reset:
+    __slots__ = ('pipe',)
+
+    def __init__(self, pipe):
+        self.pipe = pipe
+
+    def __call__(self):
+        self.pipe.reset = True
 
 
 class SimSocketModule:
